@@ -120,8 +120,12 @@ def coq_alpha(dt, t):
 def content(m):
     """(label, [state index]) per row in the matrix's iteration order, by the matrix's default
     alphabet; symbols alongside for the oracle"""
-    alpha = m.default_state_alphabet
-    ids = fresh_ids(alpha)
+    try:
+        ids = fresh_ids(m.default_state_alphabet)
+    except TypeError:      # several state alphabets and no default (a NeXML-read standard matrix)
+        ids = {}
+        for a in m.state_alphabets:
+            ids.update(fresh_ids(a))
     rows, syms = [], []
     for t in m:
         cells = []
@@ -339,6 +343,8 @@ def _observe(case):
             obs["tokens"] = cb[0] if cb else []
             obs["sym_order"] = sym_order_of(m) if dt in ("standard", "restriction", "infinite") else []
         obs["back"] = read_back(case.get("read_dt", dt), fmt, text, case.get("rkw", {}))
+        if fmt == "nexus" and dt in ("restriction", "infinite"):
+            obs["back_as_standard"] = read_back("standard", fmt, text, case.get("rkw", {}))
         return obs
     if kind == "read":
         if "from" in case:
@@ -439,6 +445,8 @@ def to_coq(case, obs):
             return "(PhylipRead %s %s %s %s %s)" % (lowtab(labs), "alpha_%s" % dt, c_pr(case.get("rkw", {})),
                                                     ctext(obs["text"]), cres(p, lambda x: cmatrix(x["rows"])))
         if fmt == "nexus":
+            if len(set(l.lower() for l in obs["ns0"])) != len(obs["ns0"]):
+                return TRIVIAL      # TAXLABELS with repeated labels: the TAXA block is not modelled here (C02)
             labs = label_variants(obs["ns0"] + [t for t in obs["tokens"]])
             st = "(nx_init %s %s %s)" % (clist([ctext(l) for l in obs["ns0"]]), copt(obs["ntax0"], cz),
                                          cbool(case.get("rkw", {}).get("case_sensitive_taxon_labels", False)))
@@ -605,9 +613,8 @@ def nexus_label_ok(l):
 
 
 def nexml_label_ok(l):
-    """NexmlWriter renders attribute values with json.dumps(str.encode('unicode_escape')): anything
-    that changes is not re-read (finding nexml-label-escaping); the rest of the harness stays inside"""
-    return nexus_label_ok(l) and all(32 <= ord(c) < 127 and c not in '"\\<&' for c in l)
+    """what an XML 1.0 attribute value can carry besides the NEXUS rule: no control characters"""
+    return nexus_label_ok(l) and all(ord(c) >= 32 for c in l)
 
 
 def phylip_variant(rng, labels):
@@ -793,7 +800,8 @@ def gen_text_read_case(rng, tier):
     fmt = rng.choice(["fasta", "phylip", "phylip", "nexus", "nexus"])
     ntax, nchar = gen_dims(rng, tier)
     if fmt == "fasta":
-        rows = gen_rows(rng, dt, ntax, nchar, rng.choice(["safe", "spaced", "odd"]))
+        fmode = rng.choice(["safe", "spaced", "odd"])
+        rows = gen_rows(rng, dt, ntax, nchar, fmode)
         lines = []
         for l, c in rows:
             s = symbols_of(dt, c)
@@ -819,15 +827,20 @@ def gen_text_read_case(rng, tier):
             lines.append(">lastempty")
         elif k < 0.30 and len(rows) > 1:
             lines.insert(0, ">firstempty")
-        return {"kind": "read", "dt": dt, "fmt": "fasta", "text": "\n".join(lines) + ("\n" if rng.random() < 0.8 else ""),
-                "labels": [l for l, _ in rows]}
+        c = {"kind": "read", "dt": dt, "fmt": "fasta", "text": "\n".join(lines) + ("\n" if rng.random() < 0.8 else ""),
+             "labels": [l for l, _ in rows]}
+        if k >= 0.30 and fmode != "odd":
+            c["intent"] = rows
+            c["layout"] = "wrapped-lines"
+        return c
     if fmt == "phylip":
         strict = rng.random() < 0.5
         inter = rng.random() < 0.5
         multi = rng.random() < 0.5
         mode = "safe" if rng.random() < 0.6 else rng.choice(["spaced", "long", "odd"])
         rows = gen_rows(rng, dt, ntax, nchar, mode)
-        text = phylip_text(rng, dt, rows, strict, inter, sep=rng.choice(["  ", " ", "\t", "   "]),
+        sep = rng.choice(["  ", " ", "\t", "   "])
+        text = phylip_text(rng, dt, rows, strict, inter, sep=sep,
                            lower=rng.random() < 0.3, pages=rng.choice([0, 1, 2, 3]),
                            blank_lines=rng.random() < 0.3, inner_blanks=rng.random() < 0.3)
         k = rng.random()
@@ -851,9 +864,13 @@ def gen_text_read_case(rng, tier):
         text = "\n".join(lines)
         if rng.random() < 0.15:
             text = text.replace("\n", "\r\n")
-        return {"kind": "read", "dt": dt, "fmt": "phylip", "text": text, "labels": [l for l, _ in rows],
-                "rkw": {"strict": strict, "interleaved": inter, "multispace_delimiter": multi,
-                        "underscores_to_spaces": rng.random() < 0.2}}
+        c = {"kind": "read", "dt": dt, "fmt": "phylip", "text": text, "labels": [l for l, _ in rows],
+             "rkw": {"strict": strict, "interleaved": inter, "multispace_delimiter": multi,
+                     "underscores_to_spaces": rng.random() < 0.2}}
+        if k >= 0.30 and mode == "safe" and (strict or not multi or len(sep) >= 2):
+            c["intent"] = rows
+            c["layout"] = "%s-%s" % ("strict" if strict else "relaxed", "interleaved" if inter else "sequential")
+        return c
     # nexus
     mode = "nexus" if rng.random() < 0.8 else "safe"
     rows = gen_rows(rng, dt, ntax, nchar, mode)
@@ -867,7 +884,11 @@ def gen_text_read_case(rng, tier):
         text = text.replace("NCHAR=%d" % nchar, "NCHAR=%d" % (nchar - 1))
     elif k < 0.13:
         text = text.replace("MATRIX", "MATRIX\n    extra_taxon  " + symbols_of(dt, rows[0][1]), 1)
-    return {"kind": "read", "dt": dt, "fmt": "nexus", "text": text, "labels": [l for l, _ in rows]}
+    c = {"kind": "read", "dt": dt, "fmt": "nexus", "text": text, "labels": [l for l, _ in rows]}
+    if k >= 0.13:
+        c["intent"] = rows
+        c["layout"] = "interleaved" if inter else "sequential"
+    return c
 
 
 # ----------------------------------------------------------------------------
@@ -944,6 +965,11 @@ def oracle(case, obs):
     if isinstance(obs["text"], dict):
         return ("writing %s as %s raised %s" % (dt, fmt, obs["text"]["err"]), "write-%s-%s-%s" % (fmt, dt, obs["text"]["err"]))
     back = obs["back"]
+    if "back_as_standard" in obs:
+        b2 = obs["back_as_standard"]
+        if "err" in b2 or b2["syms"] != obs["syms"]:
+            return ("%s matrix written as nexus does not even read back as a standard matrix with the same symbols: %s" % (dt, str(b2)[:300]),
+                    "roundtrip-nexus-as-standard-differs")
     suffix = ""
     if has_fresh(obs):
         suffix = ":symbolless-multistate"
@@ -1046,6 +1072,11 @@ def run(tier, seed, replay=None):
     if replay:
         r = json.load(open(replay))["replay"]
         case = r["case"]
+        if case.get("kind") == "pipeline":
+            obs = observe_pipeline(case)
+            print("observed:", json.dumps(obs, default=str)[:3000])
+            print("oracle:", oracle_pipeline(case, obs))
+            return 0
         obs = observe(case)
         print("observed:", json.dumps(slim(obs), default=str)[:3000])
         print("oracle:", oracle(case, obs))
@@ -1059,4 +1090,320 @@ def run(tier, seed, replay=None):
     core.corr_stage(ctx, cases, observe, to_coq, HEADER, "case_ok", oracle=oracle, show_fn="case_show",
                     nontrivial=nontrivial, search=search, shard=70,
                     sample_fn=lambda c, o: {"case": {k: v for k, v in c.items() if k != "route"}, "observed": str(slim(o))[:600]})
+    run_pipelines(ctx, tier)
     return ctx.finish(level="proof", rule="see manifest")
+
+
+# ----------------------------------------------------------------------------
+# oracle-only pipelines: NeXML, continuous characters, data sets with several namespaces
+# ----------------------------------------------------------------------------
+
+NEXML_TYPES = ["dna", "rna", "protein", "standard", "restriction"]
+CONT_VALUES = [0.0, 1.0, -1.0, 1.5, -2.25, 0.1, 1e-07, 1e+22, 123456.789, 3.0, 2.5e-300, -7.125, 1.0 / 3.0, 6.02e23]
+SAFE_ASCII = [l for l in SAFE + SPACED if all(ord(c) < 128 for c in l)]
+
+
+def pick_ascii_labels(rng, n, spaced=True):
+    pool = [l for l in (SAFE_ASCII if spaced else SAFE) if all(ord(c) < 128 for c in l) and nexml_label_ok(l)]
+    out, seen = [], set()
+    rng.shuffle(pool)
+    for l in pool:
+        if l.lower() not in seen:
+            out.append(l)
+            seen.add(l.lower())
+        if len(out) == n:
+            break
+    return out
+
+
+def gen_pipeline(rng, tier):
+    k = rng.random()
+    ntax, nchar = gen_dims(rng, tier)
+    if k < 0.40:
+        dt = rng.choice(NEXML_TYPES)
+        labels = pick_ascii_labels(rng, ntax)
+        rows = gen_rows(rng, dt, len(labels), nchar, "safe")
+        rows = [[l, c] for l, (_x, c) in zip(labels, rows)]
+        route = gen_route(rng, dt, rows)
+        return {"kind": "pipeline", "p": "nexml", "dt": dt, "fmt": "nexml", "route": route,
+                "wkw": {"markup_as_sequences": rng.random() < 0.4}}
+    if k < 0.50:
+        dt = rng.choice(["nucleotide", "infinite"])
+        rows = gen_rows(rng, dt, ntax, nchar, "safe")
+        return {"kind": "pipeline", "p": "nexml-unsupported", "dt": dt, "fmt": "nexml",
+                "route": {"r": "from_dict", "dt": dt, "rows": rows}, "wkw": {}}
+    if k < 0.72:
+        fmt = rng.choice(["nexus", "phylip", "nexml"])
+        via = rng.choice([None, None, "nexus", "phylip", "nexml"])
+        labels = pick_ascii_labels(rng, ntax, spaced=(fmt != "phylip" and via != "phylip"))
+        vals = [[l, [rng.choice(CONT_VALUES) if rng.random() < 0.6 else round(rng.uniform(-50, 50), rng.randint(0, 6))
+                     for _ in range(nchar)]] for l in labels]
+        wkw, rkw = {}, {}
+        if fmt == "phylip":
+            wkw, rkw = phylip_variant(rng, labels)
+        return {"kind": "pipeline", "p": "continuous", "dt": "continuous", "fmt": fmt, "rows": vals, "wkw": wkw, "rkw": rkw,
+                "via": via}
+    if k < 0.92:
+        # a data set: 1-3 namespaces, each with matrices and tree lists
+        nns = rng.randint(1, 3)
+        spaces = []
+        used = set()
+        for i in range(nns):
+            labs = [l for l in pick_ascii_labels(rng, rng.randint(2, 6)) if True]
+            mats = []
+            for j in range(rng.randint(0, 2) if nns > 1 else rng.randint(1, 2)):
+                dt = rng.choice(["dna", "rna", "protein", "standard"])
+                nch = rng.randint(1, 12)
+                rows = gen_rows(rng, dt, len(labs), nch, "safe")
+                mats.append({"dt": dt, "rows": [[l, c] for l, (_x, c) in zip(labs, rows)],
+                             "label": rng.choice([None, "m%d_%d" % (i, j), "matrix %d" % j])})
+            trees = rng.random() < 0.5 and len(labs) >= 2
+            spaces.append({"label": rng.choice([None, "ns%d" % i, "taxa %d" % i, "TAXA"]), "labels": labs, "mats": mats,
+                           "trees": trees, "tree_label": rng.choice([None, "trees%d" % i])})
+        fmt = rng.choice(["nexus", "nexus", "nexml"])
+        wkw = {}
+        if fmt == "nexus":
+            # the settings documented to keep titles when they are needed: default (None) and False ("always written")
+            sbt = rng.choice([None, None, False])
+            if sbt is not None:
+                wkw["suppress_block_titles"] = sbt
+        return {"kind": "pipeline", "p": "dataset", "dt": "dna", "fmt": fmt, "spaces": spaces, "wkw": wkw}
+    if k < 0.97:
+        dt = rng.choice(["dna", "standard", "protein"])
+        return {"kind": "pipeline", "p": "fresh-multistate", "dt": dt, "fmt": rng.choice(["nexus", "nexml"]),
+                "poly": rng.random() < 0.5, "wkw": {}}
+    return {"kind": "pipeline", "p": "nexml-label", "dt": "dna", "fmt": "nexml",
+            "label": rng.choice(["naïve", "a\"b", "back\\slash", "été", "x<y", "p&q", "tab\tlab"]), "wkw": {}}
+
+
+def cont_content(m):
+    return [[t.label, [float(v) for v in m[t]]] for t in m]
+
+
+def newick_of(tree):
+    return tree.as_string("newick", suppress_rooting=True, suppress_edge_lengths=True).strip()
+
+
+def observe_pipeline(case):
+    import dendropy
+    warnings.simplefilter("ignore")
+    p = case["p"]
+    try:
+        if p in ("nexml", "nexml-unsupported"):
+            m, stages = build_route(case["route"])
+            rows, syms = content(m)
+            obs = {"syms": syms, "rows": rows, "stages": stages}
+            own = set(id(x) for a in m.state_alphabets for x in a.state_iter())
+            obs["foreign_states"] = any(id(x) not in own for t in m for x in m[t])
+            try:
+                text = m.as_string("nexml", **case["wkw"])
+            except Exception as e:
+                obs["text"] = {"err": core.exc_enum(e), "msg": str(e)[:200]}
+                return obs
+            obs["text"] = text if len(text) < 4000 else text[:4000]
+            obs["back"] = read_back(case["dt"], "nexml", text, {})
+            return obs
+        if p == "continuous":
+            cls = dendropy.ContinuousCharacterMatrix
+            m = cls.from_dict({l: v for l, v in case["rows"]})
+            if case.get("via"):
+                vt = m.as_string(case["via"])
+                m = cls.get(data=vt, schema=case["via"])
+            obs = {"content": cont_content(m)}
+            text = m.as_string(case["fmt"], **case["wkw"])
+            obs["text"] = text[:3000]
+            try:
+                m2 = cls.get(data=text, schema=case["fmt"], **case["rkw"])
+                obs["back"] = {"content": cont_content(m2), "ns": [t.label for t in m2.taxon_namespace]}
+            except Exception as e:
+                obs["back"] = err_of(e)
+            return obs
+        if p == "dataset":
+            ds = dendropy.DataSet()
+            want = []
+            for sp in case["spaces"]:
+                tns = ds.new_taxon_namespace(label=sp["label"])
+                for l in sp["labels"]:
+                    tns.new_taxon(label=l)
+                for md in sp["mats"]:
+                    cls = matrix_class(md["dt"])
+                    m = cls(taxon_namespace=tns, label=md["label"])
+                    for l, cells in md["rows"]:
+                        m[tns.get_taxon(label=l)] = [m.default_state_alphabet[i] for i in cells]
+                    ds.add_char_matrix(m)
+                if sp["trees"]:
+                    nw = "(" + ",".join(l.replace(" ", "_") for l in sp["labels"]) + ");"
+                    tl = dendropy.TreeList.get(data=nw, schema="newick", taxon_namespace=tns)
+                    tl.label = sp["tree_label"]
+                    ds.add_tree_list(tl)
+            want_m = [{"ns": [t.label for t in m.taxon_namespace], "syms": content(m)[1]} for m in ds.char_matrices]
+            want_t = [{"ns": [t.label for t in tl.taxon_namespace], "leaves": [sorted(nd.taxon.label for nd in tr.leaf_node_iter()) for tr in tl]}
+                      for tl in ds.tree_lists]
+            obs = {"want_m": want_m, "want_t": want_t, "want_ns": [[t.label for t in tns] for tns in ds.taxon_namespaces]}
+            text = ds.as_string(case["fmt"], **case["wkw"])
+            obs["text"] = text[:6000]
+            try:
+                d2 = dendropy.DataSet.get(data=text, schema=case["fmt"])
+            except Exception as e:
+                obs["back"] = {"err": core.exc_enum(e), "msg": "%s: %s" % (type(e).__name__, str(e)[:200])}
+                return obs
+            obs["back"] = {
+                "m": [{"ns": [t.label for t in m.taxon_namespace], "syms": content(m)[1]} for m in d2.char_matrices],
+                "t": [{"ns": [t.label for t in tl.taxon_namespace], "leaves": [sorted(nd.taxon.label for nd in tr.leaf_node_iter()) for tr in tl]}
+                      for tl in d2.tree_lists],
+                "ns": [[t.label for t in tns] for tns in d2.taxon_namespaces]}
+            return obs
+        if p == "fresh-multistate":
+            dt = case["dt"]
+            st = TABS[dt]["states"]
+            f = [s["symbol"] for s in st if s["kind"] == "Fundamental" and s["symbol"] != "-"]
+            grp = ("(%s%s)" if case["poly"] else "{%s%s}") % (f[0], f[-1])
+            if dt != "standard" and not case["poly"]:
+                grp = "{%s%s%s}" % (f[0], f[1], "")       # for the fixed types {AC} is the existing state M / B ...
+                grp = "(%s%s)" % (f[0], f[1])              # ... so use a polymorphic group, which is never predefined
+            dk = {"dna": "DNA", "protein": "PROTEIN", "standard": "STANDARD"}[dt]
+            extra = ' SYMBOLS="0123456789"' if dt == "standard" else ""
+            src = "#NEXUS\nBEGIN DATA;\n DIMENSIONS NTAX=2 NCHAR=3;\n FORMAT DATATYPE=%s%s GAP=- MISSING=?;\n MATRIX\n  a %s%s%s\n  b %s%s%s\n ;\nEND;\n" % (
+                dk, extra, f[0], grp, f[1], f[1], f[0], grp)
+            m = matrix_class(dt).get(data=src, schema="nexus")
+            rows, syms = content(m)
+            obs = {"source": src, "syms": syms}
+            try:
+                text = m.as_string(case["fmt"])
+            except Exception as e:
+                obs["text"] = {"err": core.exc_enum(e), "msg": str(e)[:200]}
+                return obs
+            obs["text"] = text[:3000]
+            obs["back"] = read_back(dt, case["fmt"], text, {})
+            return obs
+        if p == "nexml-label":
+            m = dendropy.DnaCharacterMatrix.from_dict({"a": "AC", case["label"]: "GT"})
+            rows, syms = content(m)
+            text = m.as_string("nexml")
+            return {"syms": syms, "text": text[:2500], "back": read_back("dna", "nexml", text, {})}
+        raise ValueError(p)
+    finally:
+        restore_globals()
+
+
+def oracle_pipeline(case, obs):
+    p = case["p"]
+    if p == "nexml":
+        for i in range(0, len(obs["stages"]) - 1, 2):
+            if obs["stages"][i][1] != obs["stages"][i + 1][1]:
+                return ("matrix changed by %s" % obs["stages"][i + 1][0], "route-changed:%s" % obs["stages"][i + 1][0])
+        lens = set(len(s) for _, s in obs["syms"])
+        if len(lens) != 1 or 0 in lens:
+            return None
+        if isinstance(obs["text"], dict):
+            if obs.get("foreign_states"):
+                return ("a %s matrix built by %s holds states of another matrix's state alphabet (its own state_alphabets lists a fresh one); writing it as NeXML raised %s: %s"
+                        % (case["dt"], case["route"]["r"], obs["text"]["err"], obs["text"].get("msg")),
+                        "write-nexml-%s:states-foreign-to-own-alphabets" % case["dt"])
+            return ("writing a %s matrix built by %s as NeXML raised %s: %s" % (case["dt"], case["route"]["r"], obs["text"]["err"], obs["text"].get("msg")),
+                    "write-nexml-%s:%s" % (case["dt"], case["route"]["r"]))
+        b = obs["back"]
+        if "err" in b:
+            return ("%s matrix (%s) written as NeXML%s is not read back: %s" % (case["dt"], case["route"]["r"], " as sequences" if case["wkw"].get("markup_as_sequences") else "", b["err"]),
+                    "roundtrip-nexml-unreadable")
+        if b["syms"] != obs["syms"]:
+            return ("%s matrix (%s) written as NeXML reads back different: %s -> %s" % (case["dt"], case["route"]["r"], str(obs["syms"])[:300], str(b["syms"])[:300]),
+                    "roundtrip-nexml-differs")
+        return None
+    if p == "nexml-unsupported":
+        # the writer refuses these data types loudly: outside "data types that the target format supports"
+        if not isinstance(obs["text"], dict):
+            b = obs["back"]
+            if "err" in b or b["syms"] != obs["syms"]:
+                return ("%s matrix written as NeXML does not read back" % case["dt"], "roundtrip-nexml-%s" % case["dt"])
+        return None
+    if p == "continuous":
+        b = obs["back"]
+        if "err" in b:
+            return ("continuous matrix written as %s is not read back: %s" % (case["fmt"], b["err"]), "roundtrip-%s-continuous-unreadable" % case["fmt"])
+        if b["content"] != obs["content"]:
+            return ("continuous matrix written as %s reads back different: %s -> %s" % (case["fmt"], str(obs["content"])[:300], str(b["content"])[:300]),
+                    "roundtrip-%s-continuous-differs" % case["fmt"])
+        return None
+    if p == "dataset":
+        b = obs["back"]
+        nns = len(case["spaces"])
+        tag = "%s%s" % (case["fmt"], ":suppress_block_titles=%s" % case["wkw"]["suppress_block_titles"] if "suppress_block_titles" in case["wkw"] else "")
+        if "err" in b:
+            return ("data set with %d namespace(s) written as %s is not read back: %s" % (nns, tag, b.get("msg")),
+                    "dataset-%s-unreadable:%s" % (tag, "multi" if nns > 1 else "single"))
+        if b["m"] != obs["want_m"]:
+            return ("data set (%d namespaces) via %s: matrices re-attach to %s, expected %s" % (nns, tag, str(b["m"])[:300], str(obs["want_m"])[:300]),
+                    "dataset-%s-matrices" % tag)
+        if b["t"] != obs["want_t"]:
+            return ("data set (%d namespaces) via %s: tree lists re-attach to %s, expected %s" % (nns, tag, str(b["t"])[:300], str(obs["want_t"])[:300]),
+                    "dataset-%s-trees" % tag)
+        if b["ns"] != obs["want_ns"]:
+            return ("data set (%d namespaces) via %s: namespaces %s, expected %s" % (nns, tag, str(b["ns"])[:300], str(obs["want_ns"])[:300]),
+                    "dataset-%s-namespaces" % tag)
+        return None
+    if p == "fresh-multistate":
+        if isinstance(obs["text"], dict):
+            return ("a matrix parsed from NEXUS with a multistate token without predefined symbol cannot be written as %s: %s" % (case["fmt"], obs["text"]["msg"]),
+                    "roundtrip-%s-unwritable:symbolless-multistate" % case["fmt"])
+        b = obs["back"]
+        if "err" in b:
+            return ("a matrix parsed from NEXUS with a multistate token without predefined symbol, written as %s, is not read back (%s)" % (case["fmt"], b["err"]),
+                    "roundtrip-%s-unreadable:symbolless-multistate" % case["fmt"])
+        if b["syms"] != obs["syms"]:
+            return ("symbol-less multistate through %s: %s -> %s" % (case["fmt"], obs["syms"], b["syms"]), "roundtrip-%s-differs:symbolless-multistate" % case["fmt"])
+        return None
+    if p == "nexml-label":
+        b = obs["back"]
+        if "err" in b or b["syms"] != obs["syms"]:
+            return ("label %r written to NeXML reads back as %s" % (case["label"], str(b)[:200]), "nexml-label-escaping")
+        return None
+    raise ValueError(p)
+
+
+def fixed_pipelines():
+    """one deterministic probe per family, so that a listed finding reproduces on every run"""
+    out = []
+    for dt in ("dna", "standard"):
+        for fmt in ("nexus", "nexml"):
+            out.append({"kind": "pipeline", "p": "fresh-multistate", "dt": dt, "fmt": fmt, "poly": True, "wkw": {}})
+    sp = lambda i, labs: {"label": "ns%d" % i, "labels": labs, "trees": True, "tree_label": "t%d" % i,
+                          "mats": [{"dt": "dna", "label": "m%d" % i, "rows": [[l, [k % 4, (k + 1) % 4]] for k, l in enumerate(labs)]}]}
+    for sbt in (None, False):
+        for nns in (1, 2, 3):
+            spaces = [sp(i, ["a%d" % i, "b%d" % i, "c%d" % i][:2 + (i % 2)]) for i in range(nns)]
+            wkw = {} if sbt is None else {"suppress_block_titles": sbt}
+            out.append({"kind": "pipeline", "p": "dataset", "dt": "dna", "fmt": "nexus", "spaces": spaces, "wkw": wkw})
+    for nns in (1, 2, 3):
+        out.append({"kind": "pipeline", "p": "dataset", "dt": "dna", "fmt": "nexml", "wkw": {},
+                    "spaces": [sp(i, ["a%d" % i, "b%d" % i, "c%d" % i]) for i in range(nns)]})
+    rows = [["x", [0, 1, 2]], ["y", [2, 1, 0]]]
+    for dt in NEXML_TYPES:
+        nst = len(TABS[dt]["states"])
+        r = [[l, [c % nst for c in cs]] for l, cs in rows]
+        out.append({"kind": "pipeline", "p": "nexml", "dt": dt, "fmt": "nexml", "wkw": {"markup_as_sequences": False},
+                    "route": {"r": "from_dict", "dt": dt, "rows": r}})
+        out.append({"kind": "pipeline", "p": "nexml", "dt": dt, "fmt": "nexml", "wkw": {"markup_as_sequences": False},
+                    "route": {"r": "concat", "dt": dt, "parts": [[[l, c[:1]] for l, c in r], [[l, c[1:]] for l, c in r]]}})
+    for lab in ("naïve", "a\"b", "x<y"):
+        out.append({"kind": "pipeline", "p": "nexml-label", "dt": "dna", "fmt": "nexml", "label": lab, "wkw": {}})
+    return out
+
+
+def run_pipelines(ctx, tier):
+    n = 170 if tier == "quick" else 3000
+    t0 = time.time()
+    fixed = fixed_pipelines()
+    for i in range(n + len(fixed)):
+        case = fixed[i] if i < len(fixed) else gen_pipeline(ctx.rng, tier)
+        ctx.count("pipeline:%s%s" % (case["p"], ":" + case["fmt"] if case["p"] in ("continuous", "dataset", "fresh-multistate") else ""))
+        try:
+            obs = observe_pipeline(case)
+        except Exception as e:
+            ctx.violation("harness could not run a pipeline case: %s: %s" % (type(e).__name__, e), {"case": case}, no_input=True)
+            continue
+        ctx.evaluations += 1
+        v = oracle_pipeline(case, obs)
+        if v:
+            ctx.violation(v[0], {"case": case, "observed": obs}, key=v[1])
+    ctx.notes.append("oracle-only pipelines: %d cases in %.1fs" % (n, time.time() - t0))
